@@ -94,8 +94,8 @@ Fixpoint hrun (c : hcfg) (st : hastate * list blk) (ops : list hop) : option (ha
 (* the buffer: base > 0, does not reach the last few bytes of the address space, and is large
    enough for the two boundary headers *)
 Definition hcfg_ok (c : hcfg) : Prop :=
-  0 < h_base c /\ h_base c + h_size c + ALLOC_ALIGN + MIN_ALLOC_SIZE <= two64 /\
-  2 * NODE + ALLOC_ALIGN <= h_size c.
+  0 < h_base c /\ h_base c + h_size c + ALLOC_ALIGN + MIN_ALLOC_SIZE <= two64 /\ 0 <= h_size c /\
+  (heap_start c - h_base c) + 2 * NODE <= h_size c.   (* exactly the check of add_memory_region (repair 23ac203) *)
 
 Definition hop_usize (o : hop) : Prop :=
   match o with HAlloc n | HRealloc _ n => usize n | _ => True end.
@@ -154,12 +154,3 @@ Definition payload_frame (live live' : list blk) (m m' : mem) : Prop :=
   forall b b', In b live -> In b' live' -> b_addr b = b_addr b' ->
   forall w, b_addr b - 8 < w < b_addr b + Z.min (b_size b) (b_size b') -> mget m' w = mget m w.
 
-(* what the code's own check of the region size admits (one node), as opposed to hcfg_ok (two nodes) *)
-Definition hcfg_code_ok (c : hcfg) : Prop :=
-  0 < h_base c /\ h_base c + h_size c + ALLOC_ALIGN + MIN_ALLOC_SIZE <= two64 /\
-  (heap_start c - h_base c) + NODE <= h_size c.
-
-Definition heap_mem_safe_code_check_full : Prop :=
-  forall c ops s live, hcfg_code_ok c -> Forall hop_usize ops ->
-    crun c (heap_init_state, []) ops = Some (s, live) ->
-    good_blocks (h_base c) (h_size c) ALLOC_ALIGN live.
